@@ -33,6 +33,8 @@ def props_section():
     out = []
     for p in mk.ALL:
         tech, text, note, _ref = mk.CLAIMS[p]
+        for old, new in getattr(mk, "PATCHES", {}).get(p, []):
+            text = text.replace(old, new)
         n_open = sum(1 for e in kf if e["property"] == p and e["status"] == "open")
         fixed = [e["status"].split(": ")[1] for e in kf if e["property"] == p and e["status"].startswith("fixed")]
         ev = {}
